@@ -31,6 +31,7 @@ CONFIGS = {
     "adaptive_sp2": dict(converger=[1], sp2=[True, 1e-7]),
     "fixed_sp2": dict(converger=[0, 0.2], sp2=[True, 1e-7]),
     "uhf_singlet": dict(converger=[1], uhf=True),
+    "uhf_singlet_fixed": dict(converger=[0, 0.3], uhf=True),
 }
 
 
